@@ -45,6 +45,10 @@ type Sim struct {
 	pendCert map[string]string
 	lastReloadErr bool
 	LoadErr  string
+	// PreLoad (optional, nil = nothing): extra checks `haproxy -f <dir>` would make before it accepts the
+	// files of a reload; an error makes the reload fail (the new worker does not start). Set by C12
+	// (response files named by haproxy.cfg must exist).
+	PreLoad func(cfgDir string) error
 }
 
 func NewSim(cfgDir string) *Sim {
@@ -131,6 +135,11 @@ func (s *Sim) masterCmd(cmd string) string {
 
 // load parses the files on disk the way `haproxy -f <dir>` reads them
 func (s *Sim) load() error {
+	if s.PreLoad != nil {
+		if err := s.PreLoad(s.CfgDir); err != nil {
+			return err
+		}
+	}
 	cfg, err := LoadConfig(s.CfgDir)
 	if err != nil {
 		return err
